@@ -133,3 +133,38 @@ func H_C20_kernel_2() { c20kernel(2) }
 // H_C20_kernel_3: three time steps.
 //vsym:prop=C20 tier=thorough ints=int floats=real unwind=24 timeout=120 wall=3000
 func H_C20_kernel_3() { c20kernel(3) }
+
+// c20increasing: saturation vapour pressure is strictly increasing within one branch of the
+// Goff-Gratch formula (both temperatures above, or both at or below, freezing).  From the
+// contracts: log10 is concave (pairwise tangent bound), 10^e increases with e; the exponent's
+// two power terms move the right way by sign, and a1 (resp. b1) dominates a2/(z ln 10) (resp.
+// b3/(z1 z2)) over the range.
+func c20increasing(above bool) {
+	t1, t2 := vsym.Float64("t1"), vsym.Float64("t2")
+	if above {
+		vsym.Assume(t1 > 0 && t1 < t2 && t2 <= 56)
+	} else {
+		vsym.Assume(t1 >= -68 && t1 < t2 && t2 <= 0)
+	}
+	v1, v2 := calcVaporPressure(t1), calcVaporPressure(t2)
+	vsym.Reach("two-temperatures")
+	vsym.Assert(v1 < v2, "saturation-vapour-pressure-strictly-increasing")
+}
+
+// H_C20_vp_increasing_above_freezing: 0 < t1 < t2 <= 56.
+//vsym:prop=C20 tier=quick ints=int floats=real timeout=120
+func H_C20_vp_increasing_above_freezing() { c20increasing(true) }
+
+// H_C20_vp_increasing_below_freezing: -68 <= t1 < t2 <= 0.
+//vsym:prop=C20 tier=quick ints=int floats=real timeout=120
+func H_C20_vp_increasing_below_freezing() { c20increasing(false) }
+
+// H_C20_vp_increasing_across_freezing: the two formulas meet in the right order: the value at
+// 0 degC (ice formula) is below the value at +1e-6 degC (water formula) - two concrete library
+// evaluations; with the two harnesses above this gives t1 <= 0 < 1e-6 <= t2  =>  vp(t1) < vp(t2).
+// (Temperatures in (0, 1e-6) are the stated gap.)
+//vsym:prop=C20 tier=quick ints=int floats=real timeout=60
+func H_C20_vp_increasing_across_freezing() {
+	vsym.Reach("concrete")
+	vsym.Assert(calcVaporPressure(0) < calcVaporPressure(0.000001), "ice-formula-at-0-below-water-formula-just-above-0")
+}
